@@ -30,10 +30,17 @@ Reg(op, s, k, ct, id) ==
   /\ vals' = [vals EXCEPT ![s][k] = Val(ct, id)]
   /\ hist' = Append(hist, [op |-> op, s |-> s, k |-> k, ct |-> ct, id |-> id])
   /\ UNCHANGED parent
-Next == \E s \in Scopes, id \in 1..MaxId :
+\* a lookup between registrations: reads only (in the model) - the real Value()/Invoke() must not change what
+\* later lookups see either
+Lookup(s, t) ==
+  /\ Len(hist) < MaxOps /\ Len(hist) > 0 /\ hist[Len(hist)].op # "Lookup"
+  /\ hist' = Append(hist, [op |-> "Lookup", s |-> s, k |-> t, ct |-> "", id |-> 0])
+  /\ UNCHANGED <<vals, parent>>
+Next == \/ \E s \in Scopes, id \in 1..MaxId :
           \/ \E c \in Concrete : Reg("Map", s, c, c, id)
           \/ \E i \in Ifaces : \E c \in Storable(i) : Reg("MapTo", s, i, c, id)
           \/ \E c \in Storable("RCH") : Reg("Set", s, "RCH", c, id)
+        \/ \E s \in Scopes, t \in {"T1", "I1", "I2", "RCH"} : Lookup(s, t)
 Spec == Init /\ [][Next]_vars
 
 (* layer I: Value() *)
@@ -54,8 +61,8 @@ NearestWins == \A s \in Scopes, t \in ParamTypes :
 SiblingIsolation == parent[3] = 1 =>
                        \A t \in ParamTypes : Acceptable(vals, parent, 3, t) \subseteq
                                                (ScopeOffers(vals[3], t) \cup ScopeOffers(vals[1], t))
-LastWins == \A i \in 1..Len(hist) :
-               (\A j \in (i + 1)..Len(hist) : ~(hist[j].s = hist[i].s /\ hist[j].k = hist[i].k))
+LastWins == \A i \in { i \in 1..Len(hist) : hist[i].op # "Lookup" } :
+               (\A j \in (i + 1)..Len(hist) : ~(hist[j].op # "Lookup" /\ hist[j].s = hist[i].s /\ hist[j].k = hist[i].k))
                   => vals[hist[i].s][hist[i].k] = Val(hist[i].ct, hist[i].id)
 
 EmitCase == (EmitCases /\ Len(hist) = MaxOps) => PrintT("CASE " \o ToJson([parent |-> parent, hist |-> hist]))
